@@ -163,6 +163,7 @@ def run(ctx):
     hm = doccases.have_model(ctx)
     # core fragment of Rt/TokRound.v (theorem parse_core_doc): deep nesting, scalars of every kind
     corefrag.run(ctx, ctx.scale(150, 3000), hm)
+    corefrag.run3(ctx, ctx.scale(150, 3000), hm)
     from octave_mcp.core.parser import parse_with_warnings
     from octave_mcp.mcp.validate import ValidateTool
     from octave_mcp.mcp.write import WriteTool
